@@ -19,7 +19,8 @@ LEVEL = "model_checking"
 INSTANCE_BUDGET_S = {"quick": 90, "thorough": 600}
 EXHAUSTIVE = {"quick": False, "thorough": False}
 KEYS = ["a", "b", "_p", "_", "keys", "items", "__x", 1]
-BOUNDS = {"quick": dict(keys=KEYS, entries="<= 3 per level (all 3-subsets of the key alphabet), depth <= 2, nested lists", operations="all sequences of length <= 2 over 6 operations, seeded 150 of length 3",
+SHADOWED = ["get", "pop", "update", "values", "copy", "clear", "setdefault", "popitem", "fromkeys", "search", "search_all", "move_to_end"]
+BOUNDS = {"quick": dict(keys=KEYS, shadowed_method_names=SHADOWED, entries="<= 3 per level (all 3-subsets of the key alphabet; each shadowed method name paired with one plain key), depth <= 2, nested lists", operations="all sequences of length <= 2 over 6 operations, seeded 150 of length 3",
                         hex="data length 0..3 symbolic bytes x line sizes 1, 2, 3, 16"),
           "thorough": dict(keys=KEYS, entries="<= 4 per level", operations="all sequences of length <= 3", hex="data length 0..5 x line sizes 1, 2, 3, 8, 16")}
 OUTSIDE = ["numpy values (module absent)", "hex dumps of >= 64 KiB with more than a 3-byte symbolic window", "__str__ pretty printing"]
@@ -33,6 +34,8 @@ def instances(tier, seed):
     subsets = [list(c) for c in itertools.combinations(KEYS, 3)] + [list(c) for c in itertools.combinations(KEYS, 2)]
     for ks in subsets:
         out.append(dict(name="eq keys=%r" % (ks,), params=dict(kind="eq", keys=ks)))
+    for m in SHADOWED:      # every public dict / Container method name as an entry key (the key alphabet has only two of them)
+        out.append(dict(name="eq keys=%r" % ([m, "a"],), params=dict(kind="eq", keys=[m, "a"])))
     for ks in [["a", "b"], ["a", "_p"], ["keys", 1], ["a", "keys"]]:
         out.append(dict(name="eq-nested keys=%r" % (ks,), params=dict(kind="eq-nested", keys=ks)))
     ops = ["set", "del", "update", "copy", "deepcopy", "pickle", "setattr", "pop"]
@@ -87,6 +90,8 @@ def build(ctx, C, name, keys, nested=False):
             else:
                 if k in ("b", "keys", 1) and ctx.fork(ctx.bool("%s.none.%s" % (name, k))):
                     v = None            # an entry whose value is None is still an entry
+                elif k in SHADOWED:
+                    v = ctx.choice("%s.%s" % (name, k), [0, 1])      # concrete (forked): a library that calls the entry instead of the method raises a plain TypeError
                 else:
                     v = ctx.int("%s.%s" % (name, k), 0, 3)
                 c[k] = v
@@ -106,7 +111,9 @@ def _eq(ctx, C, p, nested=False):
     keys = p["keys"]
     a, ma = build(ctx, C, "A", keys, nested)
     b, mb = build(ctx, C, "B", list(reversed(keys)), nested)       # other insertion order
-    r = (a == b)
+    r0 = api.outcome(lambda: a == b)
+    ctx.check("comparing two containers does not raise (got %s)" % ("ok" if r0.ok else type(r0.exc).__name__ + ": " + str(r0.exc)[:60]), r0.ok)
+    r = r0.value
     want = ctx.eq(pub(a), pub(b))
     ctx.check("Container == agrees with plain-dict equality of the public entries (order-insensitive, private entries ignored)", _iff(ctx, r, want))
     ctx.check("!= is the negation of ==", (a != b) == (not r))
